@@ -518,7 +518,13 @@ func Gen(seed int64, index int, o GenOpts) *Case {
 			nParams := len(sp.ParamSets)
 			changeOnRA := map[int]bool{}
 			changeOnNonRA := map[int]bool{}
-			if nParams > 1 && chance(0.45) && o.Profile != "regular" {
+			pChange, pNonRA := 0.45, 0.4
+			if o.Profile == "e2e" {
+				// the end-to-end monitor has few cases: make parameter changes, and changes carried by a
+				// unit that is not a random-access one, frequent
+				pChange, pNonRA = 0.7, 0.6
+			}
+			if nParams > 1 && chance(pChange) && o.Profile != "regular" {
 				nch := 1 + pick(3)
 				for k := 0; k < nch; k++ {
 					changeOnRA[2+pick(nSegs*2+2)] = true
@@ -531,9 +537,16 @@ func Gen(seed int64, index int, o GenOpts) *Case {
 					c.Features["param-backtoback"] = true
 				}
 				c.Features["paramchange"] = true
-				if (sp.Kind == H264 || sp.Kind == H265) && chance(0.4) {
+				if (sp.Kind == H264 || sp.Kind == H265) && chance(pNonRA) {
 					changeOnNonRA[1+pick(nSegs*2)] = true
 					c.Features["param-nonra"] = true
+					if o.Profile == "e2e" && len(changeOnRA)%2 == 1 {
+						// the only change of the stream travels with a non-random-access unit, early: a
+						// client attached later must see the new parameters
+						changeOnRA = map[int]bool{}
+						changeOnNonRA = map[int]bool{1 + len(c.Features)%3: true}
+						c.Features["param-nonra-only"] = true
+					}
 				}
 			}
 			dts := pts0
